@@ -22,7 +22,7 @@ from WallGo.exceptions import WallGoError
 from symx import core, npx
 from symx.core import AND, OR, NOT, Cond, Sym, eq, ge, gt, le, lt, ne
 from symx.harness import HarnessDef
-from props.hydrokit import Result, ScipyStubs, ThermoStub
+from props.hydrokit import Result, ScipyStubs, ThermoStub, tolerance_claims
 from props.c02 import make_hydro, arctan_axioms
 
 EXPLANATION = __doc__
@@ -107,6 +107,7 @@ def h_solveshock(h):
     Tn = hy.solveHydroShock(vw, vp, Tp)
     roots = [c for c in st.calls if c[0] == "root_scalar"]
     h.prove("one root search for Tn", Cond(b=len(roots) == 1))
+    tolerance_claims(h, st, hy, "solveHydroShock: ")
     # which branch: shock front at the wall, v+ = vw, or integrated
     vpcent = mu(vw, vp)
     if ivp.calls:
